@@ -13,7 +13,10 @@ Requests:
 * `gl <E>`             → `ok hex(linkName e)`
 * `name <cur> <E>`     → `ok hex(linkNameIn cur e)`
 * `hyp <E>`            → `ok <covered 0/1> <synthetic 0/1>` (decidable side conditions of the partial theorems)
-* `sym <cur> <n> (key target)*n <E>` → `ok hex(symbolIn table cur e)` -/
+* `sym <cfg> <cur> <n> (key target)*n <E | L>` → `ok hex(symbolInC cfg table cur e)`; `cfg` = 0 (tree as pinned) or 1
+  (with fixes/C14-1.diff); `L sfx pkg recv k Ty*k s idx*s ptr name` = synthetic function (`sfx` = `-`, `$bound`, `$thunk`)
+  whose receiver type may be function-local
+* `wn <cfg> <cur> <name> <pkg> <recv> <k> Ty*k <s> idx*s <ptr>` → `ok hex(wrapperName cfg cur name recv)` -/
 open LlgoVerif LlgoVerif.Util LlgoVerif.LinkName
 
 def unhexStr (h : String) : Option Str :=
@@ -88,6 +91,33 @@ partial def pE : P Entity := do
   | "RT" => let p ← str; return .routine p (← num)
   | _ => failure
 
+def pCfg : P Cfg := do
+  match (← tok) with
+  | "0" => pure Cfg.legacy
+  | "1" => pure Cfg.fixed
+  | _ => failure
+
+def pWRecv : P WRecv := do
+  let p ← str
+  let r ← str
+  let ta ← pTys
+  let s ← num
+  let mut sc : List Nat := []
+  for _ in [0:s] do sc := sc ++ [(← num)]
+  let ptr ← num
+  return ⟨p, r, ta, sc, ptr == 1⟩
+
+/-- an entity, or a synthetic function with a possibly function-local receiver: (suffix, receiver, method name) -/
+def pEL : P (Sum Entity (Str × WRecv × Str)) := do
+  match (← get) with
+  | "L" :: rest =>
+    set rest
+    let sfx ← str
+    let r ← pWRecv
+    let n ← str
+    return .inr (sfx, r, n)
+  | _ => return .inl (← pE)
+
 def runP {α} (p : P α) (ts : List String) : Option α :=
   match p.run ts with
   | some (a, []) => some a
@@ -121,19 +151,32 @@ def handle (line : String) : String :=
     match runP pE rest with
     | some e => "ok " ++ b01 (e.ok pathOK) ++ " " ++ b01 e.isSynthetic
     | none => "bad-op"
-  | "sym" :: cur :: rest =>
-    let p : P (LinkTable × Entity) := do
+  | "sym" :: rest =>
+    let p : P (Cfg × Str × LinkTable × Sum Entity (Str × WRecv × Str)) := do
+      let cfg ← pCfg
+      let cur ← str
       let n ← num
       let mut t : LinkTable := []
       for _ in [0:n] do
         let k ← str
         let v ← str
         t := t ++ [(k, v)]
-      let e ← pE
-      return (t, e)
-    match unhexStr cur, runP p rest with
-    | some c, some (t, e) => "ok " ++ hexStr (symbolIn t c e)
-    | _, _ => "bad-op"
+      let e ← pEL
+      return (cfg, cur, t, e)
+    match runP p rest with
+    | some (cfg, c, t, .inl e) => "ok " ++ hexStr (symbolInC cfg t c e)
+    | some (cfg, c, _, .inr (sfx, r, n)) => "ok " ++ hexStr (wrapperName cfg c (n ++ sfx) r)
+    | none => "bad-op"
+  | "wn" :: rest =>
+    let p : P (Cfg × Str × Str × WRecv) := do
+      let cfg ← pCfg
+      let cur ← str
+      let n ← str
+      let r ← pWRecv
+      return (cfg, cur, n, r)
+    match runP p rest with
+    | some (cfg, c, n, r) => "ok " ++ hexStr (wrapperName cfg c n r)
+    | none => "bad-op"
   | _ => "bad-op"
 
 def main : IO Unit := lineLoop handle
